@@ -24,6 +24,23 @@ pub trait Elem: Field {
     fn nlimbs() -> usize;
     /// shape of the tower: list of extension degrees from the bottom
     fn shape() -> Vec<usize>;
+    /// does this field have a configured square-root algorithm (C11 only speaks about those)?
+    fn has_sqrt() -> bool;
+    /// the tower as the specification describes it: [{deg, nr}] from the bottom, nr abstract
+    fn levels(big: bool) -> Vec<Value>;
+    /// element with the given coordinates over the prime field (abstract numbers), built from raw limbs
+    fn from_coords(c: &[BigUint]) -> Self {
+        fn nest(c: &[BigUint], shape: &[usize]) -> Value {
+            match shape.split_last() {
+                None => num_to_json(&c[0], true),
+                Some((d, rest)) => {
+                    let w = c.len() / d;
+                    Value::Array((0..*d).map(|i| nest(&c[i * w..(i + 1) * w], rest)).collect())
+                }
+            }
+        }
+        Self::from_abs(&nest(c, &Self::shape()), true)
+    }
 
     // prime-field-only operations (None / unsupported for extensions)
     fn p_from_bytes_mod(_bytes: &[u8], _be: bool) -> Option<Self> {
@@ -74,6 +91,12 @@ impl<T: MontConfig<N>, const N: usize> Elem for Fp<MontBackend<T, N>, N> {
     fn shape() -> Vec<usize> {
         vec![]
     }
+    fn levels(_big: bool) -> Vec<Value> {
+        vec![]
+    }
+    fn has_sqrt() -> bool {
+        <Self as Field>::SQRT_PRECOMP.is_some()
+    }
     fn p_from_bytes_mod(bytes: &[u8], be: bool) -> Option<Self> {
         Some(if be { Self::from_be_bytes_mod_order(bytes) } else { Self::from_le_bytes_mod_order(bytes) })
     }
@@ -114,6 +137,15 @@ where
         s.push(2);
         s
     }
+    fn levels(big: bool) -> Vec<Value> {
+        let mut l = P::BaseField::levels(big);
+        l.push(json!({"deg": 2, "nr": P::NONRESIDUE.to_abs(big).expect("canonical nonresidue")}));
+        l
+    }
+    fn has_sqrt() -> bool {
+        // the quadratic template takes roots through the base field
+        P::BaseField::has_sqrt()
+    }
 }
 
 impl<P: CubicExtConfig> Elem for CubicExtField<P>
@@ -145,5 +177,13 @@ where
         let mut s = P::BaseField::shape();
         s.push(3);
         s
+    }
+    fn levels(big: bool) -> Vec<Value> {
+        let mut l = P::BaseField::levels(big);
+        l.push(json!({"deg": 3, "nr": P::NONRESIDUE.to_abs(big).expect("canonical nonresidue")}));
+        l
+    }
+    fn has_sqrt() -> bool {
+        <Self as Field>::SQRT_PRECOMP.is_some()
     }
 }
